@@ -47,6 +47,18 @@ fn write_all(events: &[Event<'static>], indent: Option<(u8, usize)>) -> Result<V
     Ok(w.into_inner())
 }
 
+fn write_all_partial(events: &[Event<'static>], indent: Option<(u8, usize)>, sink: (u8, u64)) -> Result<Vec<u8>, String> {
+    let s = crate::sources::PartialSyncSink::new(sink.0 as usize, sink.1);
+    let mut w = match indent {
+        Some((c, n)) => Writer::new_with_indent(s, c, n),
+        None => Writer::new(s),
+    };
+    for e in events {
+        w.write_event(e.borrow()).map_err(|e| format!("write_event failed on a sink with partial writes: {}", e))?;
+    }
+    Ok(w.into_inner().out)
+}
+
 fn write_all_async(events: &[Event<'static>], indent: Option<(u8, usize)>, sink: (u8, u64)) -> Result<Vec<u8>, String> {
     let s = PartialSink::new(sink.0 as usize, sink.1);
     let mut w = match indent {
@@ -135,6 +147,12 @@ pub fn check(c: &Case) -> Verdict {
     let ri = read_slice(&ind, NEUTRAL);
     if significant(&rp) != significant(&ri) {
         return Verdict::fail(format!("reading back differs: plain {:?} -> {} | indented {:?} -> {}", B::show(&plain), show_recs(&rp), B::show(&ind), show_recs(&ri)));
+    }
+    // the synchronous writers through a sink with partial (plain / vectored) and interrupted writes
+    match write_all_partial(&events, indent, c.sink) {
+        Ok(a) if a == ind => {}
+        Ok(a) => return Verdict::fail(format!("indenting writer through a sink with partial writes produced {:?}, into a Vec {:?}", B::show(&a), B::show(&ind))),
+        Err(m) => return Verdict::fail(m),
     }
     // (c) async == sync
     match write_all_async(&events, None, c.sink) {
